@@ -70,7 +70,7 @@ func NewInverseWishartDistribution(nu Scalar, s Matrix) (*InverseWishartDistribu
 
   result := InverseWishartDistribution{
     Nu  : nu.CloneScalar(),
-    S   : s,
+    S   : s.CloneMatrix(),
     SDet: sDet,
     d   : d,
     z   : z,
